@@ -2,7 +2,7 @@
 from ..prov import get_an, pp, walk
 from ..tyutil import typenum_usize
 from .. import booldec
-from .common import (all_ans, impl_bodies, aggregates_of, ctor_uses, where, ret_classes, closure_ret, hpke_variant, switch_edge,
+from .common import (result_outcome, all_ans, impl_bodies, aggregates_of, ctor_uses, where, ret_classes, closure_ret, hpke_variant, switch_edge,
                      is_ok_agg, is_err_agg)
 
 EXPLANATION = (
@@ -123,10 +123,12 @@ def check_nist_from_bytes(rep, facts, b):
                         y = y[2][0]
                     good = y[0] == 'call' and y[3] == pbi
             rep.check(good, 'R09.2', fn, 'wraps-parser-ok', pp(tt)[:200], 'Ok(Self(the Ok payload of the validating constructor))', where(a, s))
-        elif isinstance(cls, tuple) and cls[0] == 'err' and any(isinstance(x, tuple) and x[:1] == ('call',) and len(x) > 3 and x[3] == pbi for x in walk(tt)):
-            errc += 1
-            rep.check(cls[1] == frozenset(['ValidationError']), 'R09.2', fn, 'parser-error', sorted(cls[1]),
-                      'a rejected encoding yields ValidationError', where(a, s))
+    # form-independent: the one branch that decides on the parser's result returns ValidationError on its failure edge
+    o = result_outcome(a, facts, pbi)
+    if o is not None and o['err_returns']:
+        errc = 1
+        hows = sorted({h for _, _, h in o['err_returns']})
+        rep.check(hows == ['ValidationError'], 'R09.2', fn, 'parser-error', hows, 'a rejected encoding yields ValidationError', where(a, o['err_returns'][0][0]))
     rep.check(okc == 1 and errc == 1, 'R09.2', fn, 'return-classes', 'Ok returns: %d, parser-error returns: %d' % (okc, errc), 'one of each', where(a))
 
 
